@@ -503,7 +503,17 @@ impl<'a> IExec<'a> {
     #[allow(clippy::too_many_arguments)]
     pub fn do_deploy_remote(&mut self, ctx: &mut Ctx, canonical: Option<u8>, caller: u8, salt: u8, chain: u8, gas_tok: u8, gas: i64, auth: AuthVar, abort: Option<u16>) {
         let env = self.sim.env.clone();
-        let ci = 2 + caller as usize % 4;
+        // 200 / 201: the gas service / the token service itself named as caller or payer by an
+        // outside submitter — nobody can authorise for a contract address
+        let contract_payer = caller >= 200;
+        let ci = match caller {
+            200 => H_GAS,
+            201 => H_ITS,
+            _ => 2 + caller as usize % 4,
+        };
+        if contract_payer {
+            ctx.count("probe.contract_address_named_as_payer_from_outside");
+        }
         let its = self.its();
         let dchain = self.chain(chain);
         let gas_t = gas_tok as usize % self.toks.len();
@@ -558,11 +568,11 @@ impl<'a> IExec<'a> {
             Some((n, s, d)) => AHub { send: true, chain: dchain.to_string(), msg: AMsg::Deploy { id: would_be_id, name: n.clone(), symbol: s.clone(), decimals: *d as u8, minter: vec![] } }.encode(),
             None => vec![],
         };
-        let c = AuthCtx { right: ci, former: None, other_role: 1, counterparty: 2 + (caller as usize + 1) % 4, owner: self.m.owner, stranger: STRANGER };
+        let c = AuthCtx { right: ci, former: None, other_role: 1, counterparty: 2 + (caller as usize % 4 + 1) % 4, owner: self.m.owner, stranger: STRANGER };
         if auth.is_fault() {
             ctx.count(&format!("F7.{}.{}", func, auth.name()));
         }
-        let (entries, auth_ok) = match resolve_auth(&mut self.sim, auth, &c) {
+        let (entries, auth_ok) = match if contract_payer { None } else { resolve_auth(&mut self.sim, auth, &c) } {
             None => (vec![], false),
             Some((w, other)) => {
                 let full = !(other || auth == AuthVar::RootOnly);
